@@ -30,7 +30,8 @@ def main():
 def gen_schema(rnd, depth=0):
     k = rnd.random()
     if depth >= 3 or k < 0.3:
-        return ("bool",) if rnd.random() < 0.4 else ("intmod", rnd.choice([2, 3, 4, 5, 7, 8, 9, 16, 17, 100, 255, 256, 1000]))
+        return ("bool",) if rnd.random() < 0.4 else ("intmod", rnd.choice([2, 3, 4, 5, 7, 8, 9, 16, 17, 100, 255, 256, 1000, 2 ** 31 - 1, 2 ** 32 + 1, 2 ** 50 + 1, 2 ** 53 + 1,
+                                                                                  2 ** 60 + 1, 2 ** 64 + 13, 2 ** 64 - 1, 2 ** 100 + 7]))
     if k < 0.7:
         return ("list", [gen_schema(rnd, depth + 1) for _ in range(rnd.randint(1, 3))])
     return ("repeat", gen_schema(rnd, depth + 1), rnd.randint(1, 3))
@@ -144,6 +145,31 @@ def worker(job):
             else:
                 R.count("bits_rejections")
         R.sample(dict(form=form, value=v, width=n, bitlength=bl, in_range=inr, raised=repr(out.exc)[:60] if out.exc else None), cap=5)
+    # sequences of decompositions of the SAME object at different widths (anything cached on the object must not leak)
+    for _ in range(max(20, job["n"] // 4)):
+        bl = rnd.choice([8, 16])
+        p = rnd.choice(moduli)
+        w1, w2 = rnd.randint(1, 20), rnd.randint(1, 20)
+        v = rnd.choice([(1 << w2) - 1, 1 << w2, (1 << w2) + 3, rnd.randrange(1 << max(w1, w2)), 0, 1])
+        first = rnd.choice(["x.to_bits(%d)" % w1, "x.to_bits()", "x & x", "x >> 1", "~x", "x.assert_positive(%d)" % w1])
+        second = rnd.choice(["bits = x.to_bits(%d)\nr = LinComb.from_bits(bits)\nnb = len(bits)" % w2, "x.assert_positive(%d)\nr = x\nnb = %d" % (w2, w2)])
+        src = "x = PrivVal(I[0])\ntry:\n    %s\nexcept (AssertionError, ValueError):\n    pass\n%s\n" % (first, second)
+        out = G.run_api(G.Prog(src, [], bl, 0), [v], N, modulus=p)
+        inr = 0 <= v < (1 << w2)
+        R.case(cell="sequence|%s|%s" % ("narrower" if w2 < w1 else "wider-or-equal", "in" if inr else "out"), key=("seq", first, second, v, bl))
+        det = dict(src=src, inputs=[v], bl=bl, p=p, width=w2)
+        if inr:
+            if out.exc is not None:
+                R.violation("in-range-rejected:sequence", "%d is a valid %d-bit value but the second decomposition raised %s" % (v, w2, repr(out.exc)[:100]), **det)
+            else:
+                R.count("bits_roundtrips")
+                if plain(out.ns["r"]) != v or out.ns["nb"] != w2:
+                    R.violation("bits-roundtrip-differs:sequence", "second decomposition of %d at width %d gives %r with %r bits" % (v, w2, plain(out.ns["r"]), out.ns["nb"]), **det)
+        else:
+            if out.exc is None:
+                R.violation("out-of-range-accepted:sequence", "%d is not a %d-bit value but the second decomposition on the same object accepted it" % (v, w2), **det)
+            else:
+                R.count("bits_rejections")
     # width actually enforced in-circuit (checks off), small widths
     for _ in range(max(20, job["n"] // 5)):
         bl = rnd.choice([2, 3, 4, 5])
@@ -181,8 +207,8 @@ def worker(job):
         bool_as = rnd.choice(["PrivVal", "PrivVal", "PrivValBool"])
         ssrc = schema_src(s)
         big = max([x[0][1] for x in leaves(s, v, []) if x[0][0] == "intmod"] + [2])
-        if secret and big.bit_length() + 1 > bl:
-            bl = 16
+        if secret and big.bit_length() + 2 > bl:
+            bl = big.bit_length() + 3      # the range check of unpack compares against the modulus at the global bitlength
         mode = rnd.random()
         lv = leaves(s, v, [])
         ints = [i for i, (ls, _) in enumerate(lv) if ls[0] == "intmod"]
